@@ -2,7 +2,7 @@
    A case = list of raw operations + oracle script + fault overlay; the result is the trace
    (system calls, API results, handler invocations, futures, pool and driver state) that the C++ harness
    (harness/sim.cpp) must reproduce on the same case. *)
-From SP Require Export DriverModel.
+From SP Require Export TlsModel.
 Local Open Scope Z_scope.
 
 Definition new_sock (fd kind : Z) : sock :=
@@ -39,6 +39,7 @@ Definition destroy_sock (k : Z) : MX unit :=
   s <- get_sock k ;;
   if negb (s_open s) then ret tt else
   (if s_async s then async_unregister k (s_fd s) ;;; drop_sendq (s_sendq s) else ret tt) ;;;
+  tl <- is_tls k ;; (if tl && (s_kind s =? 1) then tls_dtor k else ret tt) ;;;
   sys_close (s_fd s) ;;;
   upd_sock k (fun s => s <| s_open := false |> <| s_sendq := [] |>).
 
@@ -115,10 +116,18 @@ Definition run_simple_op0 (r : raw) : MX unit :=
   | 21 => fresh_key a0 ;;; api opc (fd <- udp_new ;; put_sock a0 (new_sock fd 2) ;;; ret [fd; a0])
   | 22 => fresh_key a0 ;;; api opc (fd <- acceptor_new ;; put_sock a0 (new_sock fd 3) ;;; ret [fd; a0])
   (* 23 TCP_SEND s size timeout -> n *)
-  | 23 => s <- open_sock a0 1 ;; api opc (n <- sock_send (s_fd s) a1 a2 ;; ret [n])
+  | 23 => s <- open_sock a0 1 ;; tl <- is_tls a0 ;;
+          if tl then
+            (* usage rule of TLS sockets (socket_tls_impl.h): a send that did not go through is retried with the same data —
+               the scenario resends exactly what is pending, whatever size the operation names *)
+            t <- get_tls a0 ;;
+            let size := if t_pend t =? -1 then a1 else t_pend t in
+            api opc (n <- tls_send a0 size a2 ;; ret [n])
+          else api opc (n <- sock_send (s_fd s) a1 a2 ;; ret [n])
   (* 24 TCP_RECV s size timeout -> n | -1 *)
   | 24 => s <- open_sock a0 1 ;;
-          api opc (r <- receive (s_fd s) a1 a2 ;; ret [match r with Some n => n | None => -1 end])
+          tl <- is_tls a0 ;;
+          api opc (r <- (if tl then tls_receive a0 a1 a2 else receive (s_fd s) a1 a2) ;; ret [match r with Some n => n | None => -1 end])
   (* 25 UDP_SENDTO s size dst timeout -> n *)
   | 25 => s <- open_sock a0 2 ;; api opc (n <- sock_sendto (s_fd s) a1 a2 a3 ;; ret [n])
   (* 26 UDP_RECVFROM s size timeout -> n src | -1 *)
@@ -129,7 +138,9 @@ Definition run_simple_op0 (r : raw) : MX unit :=
   | 27 => s <- open_sock a0 3 ;; fresh_key a2 ;;;
           api opc (r <- acceptor_listen (s_fd s) a1 ;;
                    match r with
-                   | Some (cfd, peer) => put_sock a2 (new_sock cfd 1 <| s_peer := peer |>) ;;; ret [1; peer; cfd; a2]
+                   | Some (cfd, peer) => put_sock a2 (new_sock cfd 1 <| s_peer := peer |>) ;;;
+                                         tl <- is_tls a0 ;; (if tl then put_tls a2 tls0 else ret tt) ;;;      (* AcceptorTlsImpl::Accept *)
+                                         ret [1; peer; cfd; a2]
                    | None => ret [0]
                    end)
   (* 28 DESTROY s *)
@@ -139,8 +150,10 @@ Definition run_simple_op0 (r : raw) : MX unit :=
           if negb (s_open s) then bad 104 else api opc (rx <- make_buffered a0 a1 a2 ;; ret [rx])
   (* 32 BUF_RECV s timeout -> name size | -1 *)
   | 32 => s <- open_sock a0 1 ;;
-          api opc (r <- buffered_receive (fun x => owner_pool x (1000 + a0)) (set_owner_pool (1000 + a0))
-                                         (s_fd s) (s_rxsize s) a1 ;;
+          tl <- is_tls a0 ;;
+          api opc (r <- (if tl then tls_buffered_receive a0 (s_rxsize s) a1
+                         else buffered_receive (fun x => owner_pool x (1000 + a0)) (set_owner_pool (1000 + a0))
+                                               (s_fd s) (s_rxsize s) a1) ;;
                    match r with
                    | Some (id, n) => hold (1000 + a0) id ;;; nm <- name_of (1000 + a0) id ;; ret [nm; n]
                    | None => ret [-1]
@@ -196,6 +209,9 @@ Definition run_simple_op0 (r : raw) : MX unit :=
           | Some (o, i) => put_ext (x <| x_arg := None |>) ;;; hold o i
           | None => ret tt
           end ;;; report_ok opc []
+  (* 80 TLS_NEW s : SocketTcp(address, cert, key) — same system calls as the plain constructor; 81 ACC_TLS_NEW s *)
+  | 80 => fresh_key a0 ;;; api opc (fd <- tcp_client_new ;; put_sock a0 (new_sock fd 1 <| s_peer := 100 + a0 |>) ;;; put_tls a0 tls0 ;;; ret [fd; a0])
+  | 81 => fresh_key a0 ;;; api opc (fd <- acceptor_new ;; put_sock a0 (new_sock fd 3) ;;; put_tls a0 tls0 ;;; ret [fd; a0])
   (* 95 THROW kind : the running task / handler throws (1 std::runtime_error, 2 std::logic_error) *)
   | 95 => if a0 =? 1 then throw (SysErr 0) else throw (LogicErr 99)
   | _ => bad 100
@@ -283,8 +299,10 @@ Definition run_op (r : raw) : MX unit :=
   (match opc with
    (* 40 DRIVER_NEW / 41 STEP timeout / 42 RUN / 44 DRIVER_DESTROY *)
    | 40 => api opc (driver_new ;;; ret [])
-   | 41 => _ <- drv_alive ;; api opc (step run_block a0 ;;; ret [])
-   | 42 => _ <- drv_alive ;; api opc (run run_block ;;; ret [])
+   | 41 => _ <- drv_alive ;; x <- get_ext ;;
+           api opc ((match x_tls x with [] => step run_block a0 | _ => tstep run_block a0 end) ;;; ret [])
+   | 42 => _ <- drv_alive ;; x <- get_ext ;;
+           api opc ((match x_tls x with [] => run run_block | _ => trun run_block end) ;;; ret [])
    | 44 => api opc (driver_destroy ;;; ret [])
    | _ => run_simple_op0 (opc, a)
    end) ;;;
@@ -324,11 +342,12 @@ Fixpoint decode_script (l : list raw) : option (list ev) :=
 Definition K_END := 99.
 
 Definition run_case (ops : list raw) (script : list raw) (faults : list (Z * Z)) : list raw :=
-  match decode_script script with
+  let eng := filter (fun r => fst r =? 8) script in
+  match decode_script (filter (fun r => negb (fst r =? 8)) script) with
   | None => [(K_END, [1; 0; 0])]
   | Some sc =>
       let '(blocks, top) := split_blocks ops None [] [] in
-      let x0 := ext_init <| x_blocks := blocks |> in
+      let x0 := ext_init <| x_blocks := blocks |> <| x_eng := eng |> in
       let '(r, s) := run_ops top (os_init x0 sc faults) in
       let left := Z.of_nat (length (o_script s)) in
       let fin := match r with
